@@ -426,6 +426,13 @@ fn server_case(st: &mut S16, codec: Codec, label: &str, odd: &[u8], expect_probe
     if r.stuck {
         failure(st, "C16-server-stuck".into(), format!("{codec:?} {label}"));
     }
+    if expect_probe == Some(false) && r.probe_answered {
+        failure(
+            st,
+            "C16-served-after-malformed".into(),
+            format!("{codec:?} {label}: a complete frame whose payload does not decode was followed by a probe request - and the probe was served: the malformed frame did not end the connection"),
+        );
+    }
     if expect_probe == Some(true) && !r.probe_answered {
         failure(
             st,
@@ -433,6 +440,21 @@ fn server_case(st: &mut S16, codec: Codec, label: &str, odd: &[u8], expect_probe
             format!("{codec:?} {label}: a well-formed message was followed by a probe request that was never answered"),
         );
     }
+}
+
+/// exactly one complete frame, and its payload does not decode as a client message
+fn undecodable_payload(codec: Codec, frame_bytes: &[u8]) -> bool {
+    if frame_bytes.len() < 4 {
+        return false;
+    }
+    let l = u32::from_be_bytes([frame_bytes[0], frame_bytes[1], frame_bytes[2], frame_bytes[3]]) as usize;
+    if 4 + l != frame_bytes.len() {
+        return false;
+    }
+    matches!(
+        catch_unwind(AssertUnwindSafe(|| decode::<ClientMessage<String>>(codec, frame_bytes, &[], false))),
+        Ok((items, End::Err(_))) if items.is_empty()
+    )
 }
 
 fn well_formed_client_message(codec: Codec, frame_bytes: &[u8]) -> Option<String> {
@@ -490,7 +512,13 @@ fn mutate_server_frames(st: &mut S16, codec: Codec, frames: &[(String, Vec<u8>)]
                     Some(_) => None,
                     None => {
                         st.malformed += 1;
-                        None
+                        // the length prefix is intact and the payload alone fails to decode: that frame
+                        // ends the connection, what follows it is not served
+                        if pos >= 4 && undecodable_payload(codec, &m) {
+                            Some(false)
+                        } else {
+                            None
+                        }
                     }
                 };
                 server_case(st, codec, &format!("{name} byte {pos} := {v:#04x}"), &m, expect);
@@ -751,7 +779,10 @@ pub fn run_c16(tier: Tier) -> i32 {
                             Job::ServerAge(codec) => crate::c16_hist::server_age_cases(st, codec).await,
                             Job::Timed(codec) => crate::c16_hist::timed_history_cases(st, codec, if tier == Tier::Thorough { 6 } else { 5 }).await,
                             Job::ClientAge(codec) => crate::c16_hist::client_age_cases(st, codec).await,
-                            Job::StubVariant => crate::c16_hist::stub_variant_cases(st),
+                            Job::StubVariant => {
+                                crate::c16_hist::stub_variant_cases(st);
+                                crate::c16_hist::limited_bounded_flood_cases(st, 6);
+                            }
                         }
                         };
                         // A panic outside the guarded subject runs: when it comes from tarpc's
